@@ -21,7 +21,26 @@ Definition sp_idx (s : species) : nat :=
   | CO2 => 1 | H2O => 2 | HC => 3 | CO => 4 | NOx => 5 | NO => 6 | NO2 => 7 | HONO => 8 | PMnvol => 9
   | PMnvolGMD => 10 | PMvol => 11 | OCic => 12 | SOx => 13 | SO2 => 14 | SO4 => 15 | PMnvolN => 16
   end.
-Definition species_eqb (a b : species) : bool := Nat.eqb (sp_idx a) (sp_idx b).
+Definition species_eqb (a b : species) : bool :=
+  match a, b with
+  | CO2, CO2
+  | H2O, H2O
+  | HC, HC
+  | CO, CO
+  | NOx, NOx
+  | NO, NO
+  | NO2, NO2
+  | HONO, HONO
+  | PMnvol, PMnvol
+  | PMnvolGMD, PMnvolGMD
+  | PMvol, PMvol
+  | OCic, OCic
+  | SOx, SOx
+  | SO2, SO2
+  | SO4, SO4
+  | PMnvolN, PMnvolN => true
+  | _, _ => false
+  end.
 Definition mem (s : species) (l : list species) : bool := existsb (species_eqb s) l.
 
 (* ---- the 13 documented options (config/emissions.py, data/default_config.toml) ---- *)
@@ -81,8 +100,8 @@ Definition enabled_gen (table : list add_call) (c : config) (s : species) : bool
              match g with None => true | Some ms => existsb (pmnvol_eqb (pmnvol_m c)) ms end
              && switch_on c w && mem s ss) table.
 
-(* hand transcription of enabled_species; link/C11_Link.v proves the table regenerated from
-   config/emissions.py on every run equal to this one *)
+(* hand transcription of the table built by enabled_species; link/C11_Link.v proves the table regenerated
+   from config/emissions.py on every run equal to this one *)
 Definition enabled_table : list add_call :=
   [ (None, S_co2, [CO2]); (None, S_h2o, [H2O]); (None, S_hc, [HC]); (None, S_co, [CO]);
     (None, S_nox, [NOx; NO; NO2; HONO]); (None, S_pmvol, [PMvol; OCic]);
@@ -90,7 +109,20 @@ Definition enabled_table : list add_call :=
     (Some [PN_SCOPE11; PN_MEEM], S_pmnvol, [PMnvolN]);
     (None, S_sox, [SOx; SO2; SO4]) ].
 
-Definition enabled : config -> species -> bool := enabled_gen enabled_table.
+(* the same set as a direct function of the species (proved equal to [enabled_gen enabled_table] in
+   proofs/C11_Proofs.v:enabled_table_correct); this is what the rest of the model consults *)
+Definition enabled (c : config) (s : species) : bool :=
+  match s with
+  | CO2 => co2_on c
+  | H2O => h2o_on c
+  | HC => gas_enabled (hc_m c)
+  | CO => gas_enabled (co_m c)
+  | NOx | NO | NO2 | HONO => gas_enabled (nox_m c)
+  | PMvol | OCic => pmvol_enabled c
+  | PMnvol | PMnvolGMD => pmnvol_enabled c
+  | PMnvolN => match pmnvol_m c with PN_SCOPE11 | PN_MEEM => true | _ => false end
+  | SOx | SO2 | SO4 => sox_on c
+  end.
 
 (* ---- which species each component WRITES ---- *)
 
@@ -168,29 +200,64 @@ Inductive outcome :=
 Definition pmnvol_name (m : pmnvol_method) : string :=
   match m with PN_MEEM => "meem" | PN_SCOPE11 => "scope11" | PN_FOA3 => "foa3" | PN_NONE => "none" end.
 
-(* trajectory.py: the only reachable not-implemented branch is _calculate_EI_PMnvol's `case _` (FOA3);
-   compute_EI_NOx's P3T3 branch prints and continues; every PMvol method is implemented. *)
-Definition traj_refusal (c : config) : option string :=
-  if pmnvol_enabled c then
-    match pmnvol_m c with PN_FOA3 => Some (pmnvol_name (pmnvol_m c)) | _ => None end
+(* method dispatch (trajectory.py:compute_EI_NOx, _calculate_EI_PMvol, _calculate_EI_PMnvol; lto.py:_lto_pmvol,
+   _lto_pmnvol): the members each dispatcher handles without raising; any other member reaches the
+   `case _` / `else` branch, which raises NotImplementedError naming the configured value.
+   link/C11_Link.v proves the lists regenerated from the source equal to these. *)
+Definition nox_traj_handled (m : gas_method) : bool := true.              (* NONE, BFFM2, P3T3 (prints) *)
+Definition pmvol_traj_handled (m : pmvol_method) : bool := true.          (* NONE, FUEL_FLOW, FOA3 *)
+Definition pmnvol_traj_handled (m : pmnvol_method) : bool :=
+  match m with PN_FOA3 => false | _ => true end.                          (* NONE, MEEM, SCOPE11 *)
+Definition pmvol_lto_handled (m : pmvol_method) : bool := true.
+Definition pmnvol_lto_handled (m : pmnvol_method) : bool := true.         (* FOA3|MEEM placeholder, SCOPE11, NONE *)
+
+Definition gas_name (m : gas_method) : string :=
+  match m with G_BFFM2 => "bffm2" | G_P3T3 => "p3t3" | G_NONE => "none" end.
+Definition pmvol_name (m : pmvol_method) : string :=
+  match m with PV_FUEL_FLOW => "fuel_flow" | PV_FOA3 => "foa3" | PV_NONE => "none" end.
+
+(* the state of the tree with respect to the two defects found (see design.d/C11.md):
+   F9    apu.py reads lto_indices[SO2]/[SO4] although SOx may be switched off        -> KeyError
+   FC11a trajectory.py:_thrust_percentages_from_categories iterates numpy strings     -> AttributeError
+   [true] = repaired. *)
+Record tree := mkTree { fixed_f9 : bool; fixed_foa3 : bool }.
+Definition repaired : tree := mkTree true true.
+Definition as_found : tree := mkTree false false.
+
+(* get_trajectory_emissions, in the order of the source: NOx, (HC, CO), PMvol, PMnvol *)
+Definition traj_failure (t : tree) (c : config) : option outcome :=
+  if enabled c NOx && negb (nox_traj_handled (nox_m c)) then Some (Refused (gas_name (nox_m c)))
+  else if pmvol_enabled c && negb (pmvol_traj_handled (pmvol_m c)) then Some (Refused (pmvol_name (pmvol_m c)))
+  else if pmvol_enabled c && negb (fixed_foa3 t) && match pmvol_m c with PV_FOA3 => true | _ => false end
+       then Some (Internal "AttributeError:thrust_percentage")
+  else if pmnvol_enabled c && negb (pmnvol_traj_handled (pmnvol_m c)) then Some (Refused (pmnvol_name (pmnvol_m c)))
   else None.
 
-(* apu.py reads lto_indices[SO2][IDLE] and lto_indices[SO4][IDLE] when the APU burns fuel.
-   [fixed] = the repaired code (absent index read as 0); [false] = the code before fix F9. *)
-Definition apu_read_failure (fixed : bool) (e : env) (c : config) : option string :=
-  if apu_on c && apu_present e && apu_running e && negb fixed then
-    if negb (lto_has c SO2) then Some "KeyError:SO2"
-    else if negb (lto_has c SO4) then Some "KeyError:SO4" else None
+(* get_LTO_emissions: unreachable refusals today (every member is handled), kept for faithfulness *)
+Definition lto_failure (c : config) : option outcome :=
+  if enabled c PMvol && negb (pmvol_lto_handled (pmvol_m c)) then Some (Refused (pmvol_name (pmvol_m c)))
+  else if enabled c PMnvol && negb (pmnvol_lto_handled (pmnvol_m c)) then Some (Refused (pmnvol_name (pmnvol_m c)))
+  else None.
+
+(* apu.py reads lto_indices[SO2][IDLE] and lto_indices[SO4][IDLE] when the APU burns fuel; the repaired
+   code reads an absent index as 0 *)
+Definition apu_read_failure (t : tree) (e : env) (c : config) : option outcome :=
+  if apu_on c && apu_present e && apu_running e && negb (fixed_f9 t) then
+    if negb (lto_has c SO2) then Some (Internal "KeyError:SO2")
+    else if negb (lto_has c SO4) then Some (Internal "KeyError:SO4") else None
   else None.
 
 Definition apu_runs (e : env) (c : config) : bool := apu_on c && apu_present e.
 
-Definition outcome_of (fixed : bool) (e : env) (c : config) : outcome :=
-  match traj_refusal c with
-  | Some n => Refused n
+Definition outcome_of (t : tree) (e : env) (c : config) : outcome :=
+  match traj_failure t c with
+  | Some o => o
   | None =>
-    match apu_read_failure fixed e c with
-    | Some w => Internal w
+  match lto_failure c with
+  | Some o => o
+  | None =>
+    match apu_read_failure t e c with
+    | Some o => o
     | None =>
       let lc := enabled c CO2 && lifecycle_on c in
       if lc && negb (lifecycle_data e) then Refused "lifecycle"
@@ -198,6 +265,7 @@ Definition outcome_of (fixed : bool) (e : env) (c : config) : outcome :=
                     (if apu_runs e c then keys (apu_has c) else [])
                     (if gse_on c then keys (gse_has c) else []) lc
     end
+  end
   end.
 
 (* ---- the property, as a decidable predicate on outcomes ---- *)
@@ -215,8 +283,12 @@ Definition governing_on (c : config) (s : species) : bool :=
   | PMnvol | PMnvolGMD | PMnvolN => match pmnvol_m c with PN_NONE => false | _ => true end
   end.
 
+(* a refusal must name the value configured for one of the method options, and that method must really be
+   one the code does not implement; or be the missing life-cycle datum of the fuel *)
 Definition names_configured (c : config) (e : env) (n : string) : bool :=
-  (String.eqb n (pmnvol_name (pmnvol_m c)) && match pmnvol_m c with PN_FOA3 => true | _ => false end)
+  (String.eqb n (gas_name (nox_m c)) && negb (nox_traj_handled (nox_m c)))
+  || (String.eqb n (pmvol_name (pmvol_m c)) && negb (pmvol_traj_handled (pmvol_m c) && pmvol_lto_handled (pmvol_m c)))
+  || (String.eqb n (pmnvol_name (pmnvol_m c)) && negb (pmnvol_traj_handled (pmnvol_m c) && pmnvol_lto_handled (pmnvol_m c)))
   || (String.eqb n "lifecycle" && lifecycle_on c && negb (lifecycle_data e)).
 
 Definition ok (c : config) (e : env) (o : outcome) : bool :=
